@@ -145,6 +145,11 @@ class CustomEADeme(pyhms.demes.ea_deme.EADeme):
     pass
 
 
+# a user's config class that carries the NAME of the built-in class it extends (`class EALevelConfig(pyhms.EALevelConfig)`
+# in the user's own module)
+SameNameEAConfig = type("EALevelConfig", (EALevelConfig,), {"__module__": __name__ + ".user"})
+
+
 class WholePopulationGenerator(pyhms.sprout.sprout_generators.SproutCandidatesGenerator):
     """User-defined generator: every individual of an active non-leaf deme is a candidate; it hands over the
     deme's current population list as it is."""
@@ -292,9 +297,41 @@ def build_bounds(plan):
     return np.array([[float(lo), float(hi)] for lo, hi in plan["box"]], dtype=float)
 
 
+class SubBox(pyhms.core.problem.ProblemWrapper):
+    """User-defined wrapper that restricts the search to a region of interest inside the wrapped problem's box."""
+
+    def __init__(self, decorated_problem, bounds):
+        super().__init__(decorated_problem)
+        self._sub = np.array(bounds, dtype=float)
+
+    @property
+    def bounds(self):
+        return self._sub
+
+
+class TargetValueProblem(FunctionProblem):
+    """User-defined problem with its own order: a fitness closer to a target value is better (calibration / inverse
+    problems). The library's wrappers must keep comparing the way the innermost problem does."""
+
+    def __init__(self, fun, bounds, maximize, target):
+        super().__init__(fun, bounds=bounds, maximize=maximize)
+        self.target = float(target)
+
+    def worse_than(self, first_fitness, second_fitness):
+        return abs(first_fitness - self.target) > abs(second_fitness - self.target)
+
+
 def build_stack(plan, stack_spec, fun, bounds):
     mx = stack_spec.get("maximize", plan["maximize"])
-    if stack_spec.get("use_cache"):
+    declared = bounds
+    if any(ls["kind"] == "subbox" for ls in stack_spec["layers"]):
+        # the innermost problem is defined on a larger box; the SubBox layer declares the plan's box
+        b = np.array(bounds, dtype=float)
+        half = 0.5 * (b[:, 1] - b[:, 0])
+        bounds = np.column_stack([b[:, 0] - half, b[:, 1] + half])
+    if stack_spec.get("innermost_target") is not None:
+        p = TargetValueProblem(fun, bounds, bool(mx), stack_spec["innermost_target"])
+    elif stack_spec.get("use_cache"):
         p = FunctionProblem(fun, bounds=bounds, maximize=bool(mx), use_cache=True)
     else:
         p = FunctionProblem(fun, bounds=bounds, maximize=bool(mx))
@@ -314,6 +351,8 @@ def build_stack(plan, stack_spec, fun, bounds):
             p = StatsGatheringProblem(p)
         elif k == "mirror":
             p = Mirrored(p)
+        elif k == "subbox":
+            p = SubBox(p, declared)
         else:
             raise ValueError(k)
         layers.append(p)
@@ -362,6 +401,8 @@ def build_level(spec, problem, share_key=None):
             if spec.get(name) is not None:
                 kw[name] = spec[name]
         cfg_cls = CustomEAConfig if spec.get("custom_derived") else EALevelConfig
+        if spec.get("custom_derived") == "same_name":
+            cfg_cls = SameNameEAConfig
         return cfg_cls(
             pop_size=I(spec["pop_size"]),
             problem=problem,
@@ -403,6 +444,8 @@ def build_level(spec, problem, share_key=None):
         kw = {}
         if spec.get("maxiter") is not None:
             kw["maxiter"] = I(spec["maxiter"])
+        if spec.get("method"):
+            kw["method"] = str(spec["method"])  # other spellings of L-BFGS-B, other bound-aware scipy methods
         return LocalOptimizationConfig(problem=problem, lsc=lsc, **kw)
     if e == "lhs":
         return LHSLevelConfig(problem=problem, lsc=lsc, pop_size=I(spec["pop_size"]))
@@ -541,6 +584,8 @@ def build_config(plan):
         reg[CustomFineConfig] = CustomFineDeme
     if any(ls.get("custom_derived") for ls in plan["levels"]):
         reg[CustomEAConfig] = CustomEADeme
+    if any(ls.get("custom_derived") == "same_name" for ls in plan["levels"]):
+        reg[SameNameEAConfig] = CustomEADeme
     if reg:
         kw["config_class_to_deme_class"] = reg
     if not options and plan.get("omit_options"):
@@ -562,6 +607,10 @@ def seed_globals(plan, salt=0):
     for _ in range(int(plan.get("prior_junk", 0))):
         np.random.rand()
         random.random()
+    # numpy's print options are process-global state a user script may have changed; every run starts from a stated one
+    po = {"precision": 8, "suppress": False, "threshold": 1000, "linewidth": 75, "floatmode": "maxprec"}
+    po.update(plan.get("np_printoptions") or {})
+    np.set_printoptions(**po)
 
 
 def _merged(plan, over):
